@@ -26,6 +26,10 @@ CLAIMED = {
          "Random histories (<=120 ops) over 1-4 aliased tables through the host API (insert/get/append/pop/remove/len/nth_key/iter/keys), keys chosen to collide in the table's hash part at every capacity of its growth sequence and to probe value equality (fresh string objects per lookup, ints/reals/nil, reserved-hash ints); a Vec<(key,value)> model is compared after every operation on every table: length, full iteration order, keys(), nth_key and get of every present key. Search, not proof; the script-card path is covered by the program-level checks, not here.",
          "Trusts the 20-line Vec model; memory limit raised so that no collection interferes (GC is C02's subject).",
          "DESIGN.md section 4, C07"),
+ "C15": ("exploration", "planted-fault testing: generated programs with one planted failing card at a generated position/call depth, expected trace computed by an independent child-numbering table (proptest-driven)",
+         "An error-free generated program is assembled around one planted fault card (13 run-time and compile-time fault kinds) in a random operand slot, statement shape and nesting (if/else/repeat/while/composite/closure invoked on the spot), at the end of a chain of 0-4 static/dynamic script calls partly in a submodule, always followed by more code. The error kind, trace[0] (index equality and resolution through Module::get_card to the planted CardId) and trace[1..] (call cards innermost to outermost, closure invocations included) are asserted; for compile faults loc must resolve to the planted card. A reference run confirms that the plan reaches the planted card.",
+         "Resource-exhaustion, timeout and unset-variable faults and chains through native re-entry are not planted. One extra trailing trace entry is accepted as the program entry.",
+         "DESIGN.md section 4, C15"),
  "C16": ("exploration", "proptest-driven model-based testing of edit histories against a plain tree-edit model with an independent child-numbering table",
          "Arbitrary modules (every card kind in every slot, unique card ids) and histories of get/insert/remove/replace/swap/walk plus the law pairs insert;remove, replace;replace-back, swap;swap, with indices valid w.r.t. the evolving model or invalid in a specific way; Ok/Err, the resulting id-tree, serde_json text after failed edits and child count/enumeration/lookup agreement are checked after every op.",
          "Trusts the tree model and its list-vs-fixed-slot table (taken from the doc comment of insert_child); swap(a,a) is taken to be the identity.",
